@@ -340,7 +340,35 @@ def _same_text_two_places(seed):
         shutil.rmtree(d, ignore_errors=True)
 
 
+def _f37(w):
+    """pinned witness of F37: a cache file written without edit_terminals is served to a request with it"""
+    from lark import Lark
+    from lark.lexer import PatternRE
+    from lark.exceptions import UnexpectedInput
+    logging.getLogger('lark').setLevel(logging.CRITICAL)
+    d = tempfile.mkdtemp(prefix='larkverif_c12_')
+    try:
+        fn = os.path.join(d, 'cache.bin')
+        def edit(t):
+            if t.name == 'WORD':
+                t.pattern = PatternRE('[a-z0-9]+')
+        def sig(p):
+            try: p.parse(w['text']); return 'accepted'
+            except UnexpectedInput as e: return type(e).__name__
+        Lark(w['grammar'], parser='lalr', cache=fn)
+        return [sig(Lark(w['grammar'], parser='lalr', cache=fn, edit_terminals=edit)), sig(Lark(w['grammar'], parser='lalr', edit_terminals=edit))]
+    finally:
+        shutil.rmtree(d, ignore_errors=True)
+
+
 def run(ctx, res):
+    for f in ctx['known']:
+        if f['id'] == 'F37' and f['status'] == 'open':
+            (st, got), = pmap(_f37, [f['witness']], procs=1)
+            if st == 'ok' and got[1] == 'accepted' and got[0] != 'accepted':
+                res.known_hits.append(('F37', '%s: %r, %s: the cached parser answers %s on %r, an uncached build of the same request accepts it' % (f['what'], f['witness']['grammar'], ' ; '.join(f['witness']['history']), got[0], f['witness']['text'])))
+            elif st == 'ok' and got[1] != 'accepted':
+                res.violation('the pinned witness of F37 behaves in a new way: the uncached build with edit_terminals answers %s' % got[1], dict(f['witness']))
     rng0 = random.Random(ctx['seed'] * 1000003 + 1233)
     pseeds = [rng0.randrange(1 << 30) for _ in range(tier_scale(ctx['tier'], 60, 600))]
     for seed, (st, r) in zip(pseeds, pmap(_same_text_two_places, pseeds, chunksize=4)):
